@@ -92,3 +92,38 @@ pub fn gt_exchange_init(exchange: &mut GtExchange, bump: u8, owner: &Pubkey, sto
 pub fn gt_confirm_exchange_vault(gt: &mut GtState, vault: &mut GtExchangeVault) -> Result<u64> {
     gt.unchecked_confirm_exchange_vault(vault)
 }
+
+/// See `Glv::unchecked_init`.
+#[allow(clippy::too_many_arguments)]
+pub fn glv_unchecked_init(
+    glv: &mut crate::states::Glv,
+    bump: u8,
+    index: u16,
+    store: &Pubkey,
+    glv_token: &Pubkey,
+    long_token: &Pubkey,
+    short_token: &Pubkey,
+    market_tokens: &std::collections::BTreeSet<Pubkey>,
+) -> Result<()> {
+    glv.unchecked_init(bump, index, store, glv_token, long_token, short_token, market_tokens)
+}
+
+/// See `Glv::insert_market`.
+pub fn glv_insert_market(glv: &mut crate::states::Glv, store: &Pubkey, market: &Market) -> Result<()> {
+    glv.insert_market(store, market)
+}
+
+/// See `Glv::update_market_config`.
+pub fn glv_update_market_config(glv: &mut crate::states::Glv, market_token: &Pubkey, max_amount: Option<u64>, max_value: Option<u128>) -> Result<()> {
+    glv.update_market_config(market_token, max_amount, max_value)
+}
+
+/// See `Glv::validate_market_token_balance`.
+pub fn glv_validate_market_token_balance(glv: &crate::states::Glv, market_token: &Pubkey, new_balance: u64, market_pool_value: &i128, market_token_supply: &u128) -> Result<()> {
+    glv.validate_market_token_balance(market_token, new_balance, market_pool_value, market_token_supply)
+}
+
+/// See `Glv::update_market_token_balance`.
+pub fn glv_update_market_token_balance(glv: &mut crate::states::Glv, market_token: &Pubkey, new_balance: u64) -> Result<()> {
+    glv.update_market_token_balance(market_token, new_balance)
+}
